@@ -338,6 +338,8 @@ Ev(x, env, lit) ==
              v == IF open THEN U("any") ELSE Apply(op, a[1], b[1])
          IN  <<v, a[2] /\ b[2] /\ Dyadic(v), Max2(Max2(a[3], b[3]), Mag(v))>>
     [] x[1] = "call" /\ x[2] = "SUM(" ->
+         \* (an argument that is a reference made by a function,
+         \* SUM(OFFSET(A1,0,0),1), is the cell it denotes like any other)
          LET vals == [q \in 1..Len(x[3]) |-> Ev(x[3][q], env, lit)]
              v == SumFrom([q \in 1..Len(vals) |-> vals[q][1]], 1, Zero)
          IN  <<v, (\A q \in 1..Len(vals) : vals[q][2]) /\ Dyadic(v),
@@ -375,9 +377,33 @@ Ev(x, env, lit) ==
                   ELSE U("any")
          IN  <<v, TRUE, Mag(v)>>
 
-\* a formula that evaluates to a blank cell shows 0
-Shown(v) == IF IsBlank(v) THEN Zero ELSE v
-TreeValue(x, env) == Shown(Ev(x, env, Lit)[1])
+\* OFFSET by a fraction, a text or a logical (see OffN) is left open with
+\* everything that may follow from it, a failure of the whole calculation
+\* included: a formula that holds such a call anywhere, also in a branch
+\* that IF does not choose, has no defined value.
+RECURSIVE Unsettled(_, _, _), UnsettledArgs(_, _, _, _)
+Unsettled(x, env, lit) ==
+  CASE x[1] = "lit" -> FALSE
+    [] x[1] = "un" -> Unsettled(x[3], env, lit)
+    [] x[1] = "bin" -> Unsettled(x[3], env, lit) \/ Unsettled(x[4], env, lit)
+    [] x[1] = "call" ->
+         \/ UnsettledArgs(x[3], 1, env, lit)
+         \/ /\ x[2] = "OFFSET("
+            /\ \/ IsU(OffN(Ev(x[3][2], env, lit)))
+               \/ IsU(OffN(Ev(x[3][3], env, lit)))
+UnsettledArgs(a, p, env, lit) ==
+  IF p > Len(a) THEN FALSE
+  ELSE Unsettled(a[p], env, lit) \/ UnsettledArgs(a, p + 1, env, lit)
+
+\* A formula that evaluates to a blank cell shows 0.  Left open: the formula
+\* is a call that denotes a reference (=OFFSET(A1,0,0)) and that cell is blank.
+\* Excel shows 0; the test suite of pycel asks for "no value" there
+\* (tests/lib/test_lookup.py: INDIRECT to an empty range).
+Shown(x, v) == IF ~IsBlank(v) THEN v
+               ELSE IF x[1] = "call" /\ x[2] = "OFFSET(" THEN U("any") ELSE Zero
+Result(x, env, lit) == IF Unsettled(x, env, lit) THEN U("any")
+                       ELSE Shown(x, Ev(x, env, lit)[1])
+TreeValue(x, env) == Result(x, env, Lit)
 Value(t, env) == TreeValue(Tree(t), env)
 
 --------------------------------------------------------------------------
@@ -395,10 +421,10 @@ Deviant(t) == \E p \in 1..Len(t) : t[p] \in DOMAIN LitDev
 Meaning(t, s) == IF IsComplete(t, s)
                  THEN LET pr == Parse(t)
                           ev == [e \in 1..Len(Envs) |-> Ev(pr.t, Envs[e], Lit)]
-                      IN  <<pr.t, pr.sp, [e \in 1..Len(Envs) |-> Shown(ev[e][1])], pr.n,
+                      IN  <<pr.t, pr.sp, [e \in 1..Len(Envs) |-> Result(pr.t, Envs[e], Lit)], pr.n,
                             [e \in 1..Len(Envs) |-> ev[e][3]],
                             IF Deviant(t)
-                            THEN [e \in 1..Len(Envs) |-> Shown(Ev(pr.t, Envs[e], LitDeviant)[1])]
+                            THEN [e \in 1..Len(Envs) |-> Result(pr.t, Envs[e], LitDeviant)]
                             ELSE <<>>>>
                  ELSE <<>>
 
